@@ -3,6 +3,7 @@ package main
 import (
 	"sync"
 	"sync/atomic"
+	"time"
 
 	"github.com/rs/zerolog"
 
@@ -18,6 +19,9 @@ import (
 // recorded with logical start/end timestamps so that the history can be checked for linearizability.
 
 func init() { families["conc"] = runConc }
+
+// far beyond what the operations of one case need (milliseconds), also under the race detector
+const concDeadline = 20 * time.Second
 
 func findOnce(repo rule.Repository, op map[string]any) any {
 	req, err := newHTTPRequest(getStr(op, "method"), getStr(op, "target"), getStr(op, "host"))
@@ -139,7 +143,20 @@ func runConc(c map[string]any) (any, error) {
 	}
 
 	close(start)
-	wg.Wait()
+
+	// a deadlock between changes and lookups must be reported, not waited for
+	finished := make(chan struct{})
+
+	go func() {
+		wg.Wait()
+		close(finished)
+	}()
+
+	select {
+	case <-finished:
+	case <-time.After(concDeadline):
+		return map[string]any{"deadlock": true, "after_ms": concDeadline.Milliseconds()}, nil
+	}
 
 	conv := func(rs [][]rec) []any {
 		out := make([]any, len(rs))
